@@ -38,7 +38,8 @@ def parseRepl (k v : String) : Option Repl := do
   | "tab" => some (.tab n)
   | _ => none
 
-def NT : Nat := 48
+/-- 48 ordinary targets + 6 variadic steady targets (locations 48..53; the probe encodes the argument as a tuple) -/
+def NT : Nat := 54
 
 def addSeg (ths : List PThread) (seg : List String) : Option (List PThread) := do
   match seg with
